@@ -487,4 +487,13 @@ def harmless : Field → NumClass → Bool
   -- any finite value
   | _, c => c == .neg || c == .zero || c == .pos
 
+
+/-- several inputs at once: `argparse` looks at every option before `main` validates anything, so a usage error of any
+input wins; otherwise the first diagnostic of `main`'s own validation ends the run; otherwise everything is accepted -/
+def composeOutcome (os : List Outcome) : Outcome :=
+  if os.any (· == .usage) then .usage
+  else match os.find? (· != .report) with
+    | some o => o
+    | none => .report
+
 end Pmn.Guard
